@@ -35,7 +35,9 @@ RULE = ("Case = model kind x composition of 1-6 distinct species from {H, D, T, 
         "the composition contains, with positive density, a species the formula must exclude or treat specially: lines - another "
         "charge state / isotope of the line's element (exc, rec) or a bare nucleus other than the receiver or a non-bare receiver "
         "(thermal CX); total radiated power - a hydrogen isotope (neutral: summed into n_hyd, ion: not); bremsstrahlung - a "
-        "neutral (excluded) or a charged species with non-positive density (skipped). Distinct by case hash.")
+        "neutral (excluded from the ion sum) or a charged species with non-positive density (skipped). Distinct by case hash. "
+        "While the known finding C03-tcx-donor-guards is open, thermal-CX donors with negative density or non-positive temperature "
+        "are replaced by their absolute values (label excluded_known) so that the search continues behind it.")
 ASSUMPTIONS = ["the mock rate functions (vf/mocks.py) are evaluated identically by the model (through cpdef dispatch) and by the oracle",
                "CODATA constants from scipy.constants (the code's 2018 values differ by < 1e-8, far below the bremsstrahlung tolerance)",
                "guards are read term-wise where the documented expression is a sum: a donor / ion / hydrogen term vanishes when its own "
@@ -49,9 +51,9 @@ TOLERANCES = {
     "pre-filled spectrum": "+ 4e-16 x base x bins (one rounding per bin when the base level is subtracted again)",
     "bremsstrahlung bins": "1e-4 relative per bin + 1e-290: the model's GaussianQuadrature stops when two successive orders agree to 1e-5 relative; for an "
                            "integrand analytic over the bin the order-to-order differences fall faster than geometrically with ratio <= 1/2, so the true "
-                           "error is <= 1e-5; x3 safety + 1e-8 (scipy quad epsrel, its own estimate is asserted <= 1e-6) + 1e-8 (CODATA vintages, exponent <= 745) "
+                           "error is <= 1e-5; x3 safety + 1e-8 (scipy quad epsrel, its own estimate is asserted <= 1e-6) + 5e-7 (CODATA vintages 1e-8 x exponent hc/(e Te lambda) <= 41 in the generated domain) "
                            "< 1e-4. Bin widths are generated so that the integrand varies by at most e^20 over one bin (order 50 is ample); the Maxwellian table "
-                           "is a C1 piecewise cubic in log u with knots 0.2 dex apart, its curvature jumps contribute < 1e-7",
+                           "is a C1 piecewise cubic in log u with knots 0.2 dex apart, its curvature jumps contribute < 1e-7. Measured worst model-vs-quad difference over 1000 generated cases: 1.1e-6",
     "bremsstrahlung linearity": "2e-4 of the largest bin involved (three independent quadratures)",
 }
 REQUIRED_LABELS = ["lines:exc", "lines:rec", "lines:tcx", "lines:guard:ne", "lines:guard:te", "lines:guard:target-n", "lines:guard:target-t",
@@ -606,7 +608,7 @@ def run_brems(case, ctx):
 
 
 SUBCHECKS = {
-    "lines": Given(strategy_lines, run_lines, quick=2400, thorough=60000),
-    "trp": Given(strategy_trp, run_trp, quick=800, thorough=20000),
-    "brems": Given(strategy_brems, run_brems, quick=600, thorough=15000),
+    "lines": Given(strategy_lines, run_lines, quick=2400, thorough=120000),
+    "trp": Given(strategy_trp, run_trp, quick=800, thorough=40000),
+    "brems": Given(strategy_brems, run_brems, quick=600, thorough=30000),
 }
